@@ -109,9 +109,16 @@ def _ref(y, w, X, idx):
     return mean, ((A @ beta - yy) ** 2).mean(), W
 
 
-def _check_state(C, crit_obj, cname, y, w, X, samples, start, pos, end, Wtot, bad, desc, with_proxy=True):
+def _check_state(C, crit_obj, cname, y, w, X, samples, start, pos, end, Wtot, bad, desc, with_proxy=True, value_only=False):
     import numpy
     TOL = 1e-9 if (X is None or abs(X).max() < 1000) else 1e-5
+    if value_only:
+        # targets far from zero: the one-pass variance loses its digits by construction; only the node value is compared
+        val, _imp, _Wn = _ref(y, w, None, samples[start:end])
+        v = C._test_criterion_node_value(crit_obj)
+        if abs(v - val) > 1e-12 * max(1.0, abs(val)) * len(y):
+            bad("node_value", "%r expected %r %s" % (v, val, desc()))
+        return 1
     node = samples[start:end]
     left = samples[start:pos]
     right = samples[pos:end]
@@ -168,14 +175,20 @@ def _crit(case):
         wmenu = [None] + [list(map(float, t)) for t in itertools.product((1, 2), repeat=n)][1:]
     orders = _orders(n)
     crit_obj, X = _mk(cname, n)
-    for ys in case["ys"]:
-        y = numpy.array(ys, dtype=numpy.float64)
+    # value alphabets: the targets as given (float32-exact small integers), an affine image that float32 cannot represent
+    # (y/3 + 0.1, weights w/3 + 0.1), and an image far from zero (y + 2^30 + 1: integers float32 cannot hold; node value only)
+    images = [("", lambda v: v, lambda v: v, False), (" [targets y/3+0.1, weights w/3+0.1]", lambda v: v / 3.0 + 0.1, lambda v: v / 3.0 + 0.1, False),
+              (" [targets y + 2^30 + 1]", lambda v: v + 2.0 ** 30 + 1.0, lambda v: v, True)]
+    for ys, (iname, fy, fw, vonly) in itertools.product(case["ys"], images):
+        y = fy(numpy.array(ys, dtype=numpy.float64))
         y2 = y.reshape(-1, 1).copy()
+        if vonly and cname.startswith("linear"):
+            continue
         for wl in wmenu:
-            w = None if wl is None else numpy.array(wl, dtype=numpy.float64)
+            w = None if wl is None else fw(numpy.array(wl, dtype=numpy.float64))
             Wtot = float(n) if w is None else float(w.sum())
-            bad = mk_bad("weights" if w is not None else "unit weights")
-            for order in orders:
+            bad = mk_bad(("weights" if w is not None else "unit weights") + (",targets not float32-representable" if iname else ""))
+            for order in (orders if not iname else orders[:1]):
                 samples = numpy.array(order, dtype=numpy.int64)
                 for start in range(0, n):
                     for end in range(start + 1, n + 1):
@@ -186,7 +199,7 @@ def _crit(case):
                             states += 1
                             cnt += _check_state(
                                 C, crit_obj, cname, y, w, X, samples, start, pos, end, Wtot, bad,
-                                lambda: "y=%r w=%r order=%r start=%d pos=%d end=%d" % (ys, wl, order, start, pos, end))
+                                lambda: "y=%r w=%r order=%r start=%d pos=%d end=%d%s" % (ys, wl, order, start, pos, end, iname), value_only=vonly)
     return {"viol": viol, "nontrivial": any(len(set(v)) > 1 for v in case["ys"]), "states": states,
             "transitions": cnt, "outcome": (cname, n)}
 
@@ -268,10 +281,17 @@ def _est(case):
         forms_all.append((" X stored as: int64", X_c.astype(numpy.int64)))
     if (X_c.astype(numpy.float32).astype(numpy.float64) == X_c).all():
         forms_all.append((" X stored as: float32", X_c.astype(numpy.float32)))
+    runs = []
     for iy, ys in enumerate(case["ys"]):
-        y = numpy.array(ys, dtype=numpy.float64)
-        forms = forms_all if iy % 27 == 13 else forms_all[:1]
-        for crit, depth, msl, (fdesc, X) in itertools.product(("mselin", "simple"), (1, 2, 3), (1, 2, 3), forms):
+        y_ = numpy.array(ys, dtype=numpy.float64)
+        runs.append((ys, y_, "", forms_all if iy % 27 == 13 else forms_all[:1], ("mselin", "simple"), 1.0))
+        if iy % 27 == 5:
+            # target values float32 cannot represent: an affine image near zero, and integers beyond 2^24
+            runs.append((ys, y_ / 3.0 + 0.1, " targets y/3+0.1", forms_all[:1], ("mselin", "simple"), 1.0))
+            runs.append((ys, y_ + 2.0 ** 30 + 1.0, " targets y+2^30+1", forms_all[:1], ("simple",), 2.0 ** 30 * 1e-4))
+    for ys, y, ydesc, forms, crits, tscale in runs:
+        for crit, depth, msl, (fdesc, X) in itertools.product(crits, (1, 2, 3), (1, 2, 3), forms):
+            fdesc = fdesc + ydesc
             if True:
                 if True:
                     if 2 * msl > n:
@@ -318,7 +338,7 @@ def _est(case):
                                 # unique only on training rows, or everywhere if full column rank
                                 chk = (q < n) if rank < A.shape[1] else numpy.ones(len(q), dtype=bool)
                             diff = numpy.abs(pred[q] - exp)
-                            if (diff[chk] > (1e-8 if case["design"] != "offset" else 1e-4)).any():
+                            if (diff[chk] > (1e-8 if case["design"] != "offset" else 1e-4) * tscale).any():
                                 k = q[chk][int(numpy.argmax(diff[chk]))]
                                 bad("prediction != per-leaf %s|criterion=%s" % (
                                     "least squares" if crit == "mselin" else "mean", crit),
